@@ -1195,3 +1195,41 @@ def late_bound_closures(fn_node: ast.AST) -> list[tuple[ast.AST, str, ast.AST]]:
                 # the variable must really change while the closure is alive: the closure is stored / returned / accumulated
                 out.append((cl, hit[0], loop))
     return out
+
+
+def reaching_value(cfg, name: str, use: int) -> ast.AST | None:
+    """The right-hand side of the ONE plain assignment `name = <expr>` whose value `name` has at CFG node `use` on every path:
+    the assignment dominates the use and no other binding of `name` can execute between it and the use.  None otherwise
+    (several definitions reach, a loop variable, an augmented assignment, ...)."""
+    from .cfg import header_parts
+
+    stores: dict[int, ast.AST | None] = {}
+    for n in cfg.nodes():
+        st = cfg.stmt[n]
+        hit = False
+        for part in header_parts(st):
+            if part is None:
+                continue
+            for x in ast.walk(part):
+                if isinstance(x, ast.Name) and x.id == name and isinstance(x.ctx, (ast.Store, ast.Del)):
+                    hit = True
+        if not hit:
+            continue
+        plain = None
+        if isinstance(st, ast.Assign) and len(st.targets) == 1 and isinstance(st.targets[0], ast.Name) and st.targets[0].id == name:
+            plain = st.value
+        elif isinstance(st, ast.AnnAssign) and isinstance(st.target, ast.Name) and st.target.id == name and st.value is not None:
+            plain = st.value
+        stores[n] = plain
+    found = None
+    for a, val in stores.items():
+        if val is None or a == use or not cfg.dominates(a, use):
+            continue
+        if any(isinstance(x, ast.Name) and x.id == name for x in ast.walk(val)):
+            continue
+        if all(b in (a, use) or use not in cfg.reachable_from(b, without={a}) for b in stores):
+            if found is not None:
+                return None
+            found = val
+    return found
+
